@@ -202,6 +202,10 @@ func TestC12(t *testing.T) {
 		j := bjobs[k]
 		rng := r.Rand(fmt.Sprintf("boundary/%s/%s/%d", j.fc.name, j.nt.name, j.idx))
 		p := genBoundaryProgram(rng, j.fc, j.nt.field.BitLen())
+		if j.idx%3 == 2 {
+			p = genSubExtremeProgram(rng, j.fc)
+			r.Count("boundary-chains.subtraction-extremes", 1)
+		}
 		cr := j.fc.newChain(p)
 		where := "engine/" + j.nt.name
 		label := fmt.Sprintf("boundary|%s|%s|%d", j.fc.name, j.nt.name, j.idx)
@@ -221,7 +225,7 @@ func TestC12(t *testing.T) {
 			r.Eval(label+"|neg", true)
 			judge(r, neg, nres, where, replayOf(neg, map[string]any{"engine": where}))
 		}
-		if j.idx == 0 && j.nt.name != "bw6-761" && !j.fc.heavy {
+		if (j.idx == 0 || j.idx == 2) && j.nt.name != "bw6-761" && !j.fc.heavy {
 			b := []string{"r1cs", "scs"}[len(j.fc.name)%2]
 			where := b + "/" + j.nt.name
 			if c, err := cr.Compile(j.nt.field, b, p); err == nil {
@@ -314,6 +318,42 @@ func TestC12(t *testing.T) {
 	}
 	vcore.Parallel(len(ajobs), workers, func(k int) { runAdv(r, ajobs[k].fc, ajobs[k].kind, ajobs[k].builder, ajobs[k].nt) })
 
+	// ---- 4. padding forgeries: only subPaddingHint lies (variable-modulus equality) ----
+	type padJob struct {
+		fc      *fieldCase
+		variant string
+		k       int
+		builder string
+		nt      native
+	}
+	var pjobs []padJob
+	for ci, fc := range cases {
+		if fc.nbLimbs*int(fc.w) < 256 || fc.nbLimbs > 8 {
+			continue // the wrapped difference (about the native modulus) must fit the quotient of the zero check
+		}
+		if fc.heavy && !fc.varMod && r.Quick() {
+			continue
+		}
+		for _, v := range []struct {
+			variant string
+			ks      []int
+		}{{"addeq", []int{1, 2, 3, 4}}, {"muladdeq", []int{1, 2}}} {
+			for _, k := range v.ks {
+				if r.Quick() && !fc.varMod && k > 2 {
+					continue
+				}
+				pjobs = append(pjobs, padJob{fc, v.variant, k, "r1cs", natives[0]}, padJob{fc, v.variant, k, "scs", natives[0]})
+				if r.Thorough() || (ci+k)%3 == 0 {
+					pjobs = append(pjobs, padJob{fc, v.variant, k, []string{"r1cs", "scs"}[(ci+k)%2], natives[1]})
+				}
+			}
+		}
+	}
+	vcore.Parallel(len(pjobs), workers, func(k int) {
+		j := pjobs[k]
+		runPadForgeries(r, j.fc, j.variant, j.k, j.builder, j.nt)
+	})
+
 	// ---- evidence ----
 	keys := make([]string, 0, len(maxOf))
 	for k := range maxOf {
@@ -353,6 +393,10 @@ func TestC12(t *testing.T) {
 	r.Require("adv.rejected."+famHonest, 50)
 	r.Require("adv.rejected."+famWidth, 10)
 	r.Require("adv.honest.accepted", 50)
+	r.Require("boundary-chains.subtraction-extremes", 50)
+	r.Require("pad.padding-hint-calls-forged", 100)
+	r.Require("pad.rejected."+famPad, 80)
+	r.Require("pad.honest.accepted", 20)
 
 	r.Finish("exploration",
 		"chains: one case = (field parameters, generated program of 10-200 emulated operations with its witness, execution engine, native field, honest / falsified variant); non-trivial = the program was executed and at least its final assertions evaluated. "+
